@@ -14,6 +14,7 @@ from statham.schema.elements import (
     Number,
     String,
 )
+from statham.schema.constants import NotPassed
 from statham.schema.elements.meta import ObjectMeta
 from statham.schema.property import _Property
 from statham.serializers.orderer import get_object_classes
@@ -90,7 +91,11 @@ def _serialize_element(
             json_name(name, prop): prop
             for name, prop in schema["properties"].items()
         }
-    if not schema.get("required", True):
+    if not schema.get("required", True) and isinstance(
+        getattr(element, "required", NotPassed()), NotPassed
+    ):
+        # Only the list computed from the properties is dropped when empty;
+        # an explicitly declared (empty) ``required`` is part of the schema.
         del schema["required"]
     if isinstance(element, CompositionElement):
         schema[element.mode] = element.elements
